@@ -70,7 +70,27 @@ def spec_mv(alg, coeffs, log=None):
             return dict(zip(x.attrs["_keys"], vals))
         if isinstance(x, (int, Fraction)) and not isinstance(x, bool):
             return {0: Poly.const(x)}
+        if isinstance(x, float) and Fraction(x).denominator in (1, 2, 4, 8, 16):
+            return {0: Poly.const(Fraction(x))}           # 0.5, 0.25, ...: exactly representable
         return None
+
+    def signed(sign_of_grade):
+        a = current(o)
+        if a is None:
+            return Unk("mv involution")
+        return spec_mv(alg, {k: v * Poly.const(sign_of_grade(bin(k).count("1"))) for k, v in a.items()}, log)
+    o.methods["reverse"] = lambda: signed(lambda g: -1 if (g * (g - 1) // 2) % 2 else 1)
+    o.methods["involute"] = lambda: signed(lambda g: -1 if g % 2 else 1)
+    o.methods["conjugate"] = lambda: signed(lambda g: -1 if (g * (g + 1) // 2) % 2 else 1)
+    o.methods["unop"] = lambda op: signed(lambda g: -1) if op == "USub" else (o if op == "UAdd" else signed(lambda g: -1 if (g * (g - 1) // 2) % 2 else 1) if op == "Invert" else Unk("mv unop"))
+
+    def grade(*grades):
+        gs = grades[0] if len(grades) == 1 and isinstance(grades[0], tuple) else grades
+        a = current(o)
+        if a is None:
+            return Unk("grade")
+        return spec_mv(alg, {k: v for k, v in a.items() if bin(k).count("1") in gs}, log)
+    o.methods["grade"] = grade
 
     def binop(op, other, refl):
         a, b = current(o), current(other)
@@ -83,6 +103,13 @@ def spec_mv(alg, coeffs, log=None):
             return spec_mv(alg, wedge(a, b, d), log)
         if op == "Add":
             return spec_mv(alg, add(a, b), log)
+        if op == "Sub":
+            return spec_mv(alg, add(a, {k: -v for k, v in b.items()}), log)
+        if op == "Mult" and (set(a) <= {0} or set(b) <= {0}):
+            # a product with a scalar (the geometric product in general needs a metric the outer functions do not use)
+            sc, mv_ = (a, b) if set(a) <= {0} else (b, a)
+            f = sc.get(0, Poly())
+            return spec_mv(alg, {k: v * f for k, v in mv_.items()}, log)
         if op == "Div":
             if log is not None:
                 log.append(("div", a, b))
@@ -123,6 +150,7 @@ OUTER_REPS = {
     "bivector in 4-D (shuffled)": (4, [12, 3, 10, 5, 6, 9]),
     "vector in 1-D": (1, [1]),
     "quadvector in 5-D": (5, [15, 23, 27, 29, 30]),
+    "trivector in 6-D": (6, [k for k in range(64) if bin(k).count("1") == 3]),
 }
 
 
@@ -204,7 +232,8 @@ def outerexp(ctx):
                              f"stored, not which are non-zero", fn)
 
 
-@rule("C19.outertrig", props=["C19"], min_instances=9, mutants=[
+@rule("C19.outertrig", props=["C19"], min_instances=12, mutants=[
+    ("outersin as the part of outerexp that flips under conjugation (right for vectors and bivectors only)", ("codegen", "    odd_Ws = codegen_outerexp(x, asterms=True)[1::2]\n    outersin = reduce(operator.add, odd_Ws)", "    outerexp = codegen_outerexp(x)\n    outersin = 0.5 * (outerexp - outerexp.conjugate())")),
     ("outercos selects the terms by grade 0, 4, 8", ("codegen", "    even_Ws = codegen_outerexp(x, asterms=True)[0::2]\n    outercos = reduce(operator.add, even_Ws)\n    return outercos", "    outerexp = codegen_outerexp(x)\n    return outerexp.grade(*range(0, x.algebra.d + 1, 4))")),
     ("outersin takes the even terms", ("codegen", "    odd_Ws = codegen_outerexp(x, asterms=True)[1::2]", "    odd_Ws = codegen_outerexp(x, asterms=True)[0::2]")),
     ("outercos skips the scalar 1", ("codegen", "    even_Ws = codegen_outerexp(x, asterms=True)[0::2]", "    even_Ws = codegen_outerexp(x, asterms=True)[2::2]")),
@@ -213,7 +242,7 @@ def outerexp(ctx):
 def outertrig(ctx):
     """outersin / outercos are the odd / even parts of outerexp, outertan = outersin / outercos."""
     repo = ctx.repo
-    for name in ("bivector in 6-D", "vector in 3-D", "quadvector in 5-D"):
+    for name in ("bivector in 6-D", "vector in 3-D", "quadvector in 5-D", "trivector in 6-D"):
         d, keys = OUTER_REPS[name]
         for cg, parity in (("codegen_outersin", 1), ("codegen_outercos", 0)):
             c = f"codegen.{cg}#{name}"
